@@ -13,7 +13,9 @@ pub const BUILTIN: &[&str] = &["/", "/style.css", "/script.js", "/favicon.svg"];
 pub const ORIGINS: &[Option<&str>] = &[None, Some("https://foo.example")];
 pub const PREFLIGHT: &[&str] = &["none", "method", "method+headers"];
 pub const RANGES: &[Option<&str>] = &[None, Some("bytes=0-0")];
-pub const MODES: &[&str] = &["allow-all", "configured"];
+/// "configured": the switch off and every list set; the variants leave the credentials setting
+/// unset (its shipped default is the empty string), off, or not a boolean literal
+pub const MODES: &[&str] = &["allow-all", "configured", "configured-credentials-unset", "configured-credentials-off", "configured-credentials-junk"];
 
 #[derive(Clone, Debug)]
 pub struct Case {
@@ -41,12 +43,17 @@ impl Case {
 }
 
 pub fn set_mode(mode: &str) {
-    if mode == "configured" {
+    if mode.starts_with("configured") {
         std::env::set_var("RWS_CONFIG_CORS_ALLOW_ALL", "false");
         std::env::set_var("RWS_CONFIG_CORS_ALLOW_ORIGINS", "https://foo.example,https://bar.example");
         std::env::set_var("RWS_CONFIG_CORS_ALLOW_METHODS", "GET,POST,PUT");
         std::env::set_var("RWS_CONFIG_CORS_ALLOW_HEADERS", "content-type,x-custom");
-        std::env::set_var("RWS_CONFIG_CORS_ALLOW_CREDENTIALS", "true");
+        std::env::set_var("RWS_CONFIG_CORS_ALLOW_CREDENTIALS", match mode {
+            "configured-credentials-unset" => "",
+            "configured-credentials-off" => "false",
+            "configured-credentials-junk" => "yes",
+            _ => "true",
+        });
         std::env::set_var("RWS_CONFIG_CORS_EXPOSE_HEADERS", "content-type");
         std::env::set_var("RWS_CONFIG_CORS_MAX_AGE", "600");
     } else {
@@ -154,9 +161,9 @@ pub fn check(case: &Case) -> (String, bool, Vec<(String, String)>) {
                         fails.push((format!("{}:{}:OPTIONS-without-allow-origin", pre, kind), format!("{:?}", acao)));
                     }
                     if case.preflight != "none" {
-                        let want_methods = if case.mode == "configured" { "GET,POST,PUT" } else { "POST" };
+                        let want_methods = if case.mode.starts_with("configured") { "GET,POST,PUT" } else { "POST" };
                         let got = opt.get("Access-Control-Allow-Methods").unwrap_or("");
-                        if !got.split(',').any(|m| m.trim().eq_ignore_ascii_case("POST")) || (case.mode == "configured" && got != want_methods) {
+                        if !got.split(',').any(|m| m.trim().eq_ignore_ascii_case("POST")) || (case.mode.starts_with("configured") && got != want_methods) {
                             fails.push((format!("{}:{}:OPTIONS-preflight-methods", pre, kind), format!("{:?} (mode {})", got, case.mode)));
                         }
                         if opt.get("Access-Control-Max-Age").is_none() {
